@@ -85,6 +85,9 @@ static uint32_t mk_rc(void) { uint32_t r = nondet_u32(); __CPROVER_assume(r >= 1
 #define M_INT 128u      /* TAG_INT only */
 #define M_BOOL 256u     /* TAG_BOOL only */
 #define M_ANY 127u
+#ifndef VERIF_ARR_CAP
+#define VERIF_ARR_CAP (1u << 20)   /* arrays of any length up to 2^20; obligations whose handler loops over the elements pin a small cap and are labelled bounded */
+#endif
 #ifndef VERIF_M0
 #define VERIF_M0 M_ANY
 #endif
@@ -113,7 +116,7 @@ static NanoValue mk_value(unsigned mask, uint32_t *len_out)
         v.tag = TAG_ARRAY;
         VmArray *a = malloc(sizeof(VmArray)); __CPROVER_assume(a != NULL);
         a->header.ref_count = mk_rc(); a->header.obj_type = TAG_ARRAY;
-        __CPROVER_assume(a->capacity >= 1 && a->capacity <= (1u << 20) && a->length <= a->capacity);
+        __CPROVER_assume(a->capacity >= 1 && a->capacity <= VERIF_ARR_CAP && a->length <= a->capacity);
         a->elements = malloc((size_t)a->capacity * sizeof(NanoValue)); __CPROVER_assume(a->elements != NULL);
         if (in_k < a->capacity) a->elements[in_k] = leaf;
         *len_out = a->length;
